@@ -48,30 +48,37 @@ Mask(S) == IF S = {} THEN 0 ELSE LET x == CHOOSE x \in S : TRUE IN Pow2(x) + Mas
 BitsOf(m) == {j \in AllBits : (m \div Pow2(j)) % 2 = 1}
 
 (* ======================================== P ============================================== *)
-(* Per message part the fold keeps: next = number of bytes spanned so far; open = highest bit  *)
-(* used in byte next-1 if the predecessor is a bit field that ended below bit 7, else -1;      *)
-(* pf = first bit of that predecessor; closed = a variable-length field was placed (it must be *)
-(* the last one of its part); rs = the predecessor was itself placed by the same-first-bit     *)
-(* rule ("restart").                                                                           *)
-PInit == [next |-> 0, open |-> -1, pf |-> -1, closed |-> FALSE, rs |-> FALSE]
+(* Per message part the fold keeps: next = number of bytes spanned so far; used = the bits      *)
+(* already owned in byte next-1 while that byte is still open, i.e. the predecessor is a bit    *)
+(* field that ended below bit 7 ({} otherwise); pf = first bit of that predecessor; closed = a  *)
+(* variable-length field was placed (it must be the last one of its part); rs = the predecessor *)
+(* was itself placed by the same-first-bit rule ("restart").                                    *)
+PInit == [next |-> 0, used |-> {}, pf |-> -1, closed |-> FALSE, rs |-> FALSE]
+KBits(k) == k.fb..LastBit(k)
+MaxBit(S) == CHOOSE x \in S : \A y \in S : y <= x
 
-(* Successions the property text / documentation say something about.  A bit field after an    *)
-(* open bit field must either repeat its first bit (=> new byte) or start above its range      *)
-(* (=> same byte).  Descending or overlapping successions are unspecified: never generated.    *)
+(* What the property text / documentation say about a bit field behind an open bit field:       *)
+(*  - it repeats the predecessor's first bit          => it starts a new byte;                  *)
+(*  - it starts above everything used in the open byte => it shares that byte (ascending order, *)
+(*    the documented use);                                                                      *)
+(*  - its bits overlap bits already used in the open byte (and the first bit differs): nothing  *)
+(*    sensible is defined - such successions are never generated;                               *)
+(*  - UNSPECIFIED CASES: the text only says that bit fields *may* share a byte.  (a) descending *)
+(*    or interleaving order: the bits are free in the open byte but do not lie above everything *)
+(*    used there (e.g. BI3:3;BI0, BI4:2;BI0:4); (b) the predecessor itself started a new byte   *)
+(*    because it repeated the first bit of *its* predecessor (third field of BI0;BI0;BI1).      *)
+(*    P admits both placements (share / new byte).  Everything that does not depend on that     *)
+(*    decision is still demanded: disjoint ownership, no byte without owner, length = bytes     *)
+(*    spanned, getLength/read/write agreeing on one and the same placement, encoding touching   *)
+(*    only owned bits, decoding depending only on owned bits, composition, round trip.          *)
+(* So Own is a *set* of admissible ownership maps; it is a singleton except in (a) and (b).     *)
 PSpecified(st, k) ==
   /\ ~st.closed
-  /\ (IsBit(k) /\ st.open >= 0) => (k.fb = st.pf \/ k.fb > st.open)
+  /\ (IsBit(k) /\ st.used # {} /\ k.fb # st.pf) => KBits(k) \cap st.used = {}
 
-PShares(st, k) == IsBit(k) /\ st.open >= 0 /\ k.fb # st.pf /\ k.fb > st.open
-
-(* UNSPECIFIED CASE.  The property text only says that bit fields *may* share a byte.  For a   *)
-(* bit field that starts above the range of a predecessor which itself started a new byte       *)
-(* because it repeated the first bit of *its* predecessor (e.g. the third field of BI0;BI0;BI1) *)
-(* neither text nor documentation fix whether it shares that byte.  P admits both placements;   *)
-(* everything else (disjoint ownership, no byte without owner, length = bytes spanned, the      *)
-(* three implementations agreeing on one and the same placement, non-interference) is still    *)
-(* demanded.  So Own is a *set* of admissible ownership maps; it is a singleton except here.    *)
-PAmbiguous(st, k) == st.rs /\ PShares(st, k)
+PAbove(st, k) == IsBit(k) /\ st.used # {} /\ k.fb # st.pf /\ k.fb > MaxBit(st.used)
+PAmbiguous(st, k) == IsBit(k) /\ st.used # {} /\ k.fb # st.pf /\ KBits(k) \cap st.used = {} /\ (st.rs \/ ~PAbove(st, k))
+PShares(st, k) == PAbove(st, k) /\ ~st.rs
 PChoices(st, k) == IF PAmbiguous(st, k) THEN {TRUE, FALSE} ELSE {PShares(st, k)}   \* share the byte?
 
 (* place one field: result = owned positions [b = first byte, n = bytes, bits = bits in each   *)
@@ -80,13 +87,14 @@ PPlace(st, k, varn, share) ==
   IF ~IsBit(k)
   THEN LET len == IF k.var THEN varn ELSE k.n IN
        [b |-> st.next, n |-> len, bits |-> AllBits,
-        st |-> [next |-> st.next + len, open |-> -1, pf |-> -1, closed |-> k.var, rs |-> FALSE]]
+        st |-> [next |-> st.next + len, used |-> {}, pf |-> -1, closed |-> k.var, rs |-> FALSE]]
   ELSE LET b == IF share THEN st.next - 1 ELSE st.next
-           full == LastBit(k) = 7
-       IN [b |-> b, n |-> 1, bits |-> k.fb..LastBit(k),
-           st |-> [next |-> b + 1, open |-> IF full THEN -1 ELSE LastBit(k),
+           full == LastBit(k) = 7                  \* a field that ends at bit 7 completes the byte
+       IN [b |-> b, n |-> 1, bits |-> KBits(k),
+           st |-> [next |-> b + 1,
+                   used |-> IF full THEN {} ELSE IF share THEN st.used \cup KBits(k) ELSE KBits(k),
                    pf |-> IF full THEN -1 ELSE k.fb, closed |-> FALSE,
-                   rs |-> st.open >= 0 /\ k.fb = st.pf /\ ~full]]
+                   rs |-> st.used # {} /\ k.fb = st.pf /\ ~full]]
 
 (* a field sequence is a sequence of [k |-> kind index, p |-> part]; a run = one admissible     *)
 (* ownership map with the fold states behind it (amb = an unspecified choice was made)          *)
